@@ -29,6 +29,10 @@ RECV_APIS = ["recv_keep", "recv_keep_with_info", "recv_measure", "recv_rsp", "re
 CANON = {"create:K": "create_keep", "create:M": "create_measure", "create:R": "create_rsp", "recv:K": "recv_keep", "recv:M": "recv_measure", "recv:R": "recv_rsp"}
 
 
+def tp_of(api: str) -> str:
+    return "K" if api in ("create_keep", "create_keep_with_info", "recv_keep", "recv_keep_with_info", "recv_rsp", "recv_rsp_with_info", "create_context", "recv_context") else "M"
+
+
 @st.composite
 def st_case(draw):
     from netqasm.qlink_compat import RandomBasis, TimeUnit
@@ -129,14 +133,22 @@ def st_case(draw):
                 bkw["time_unit"] = draw(st.sampled_from([u for u in units if u != kw.get("time_unit", "MICRO_SECONDS")]))
             else:
                 bkw["max_time"] = kw["max_time"] + 1
+        # (receiver side, generic hardware: the earlier request may be a sequential keep whose later pair has to wait for its
+        # virtual qubit while the responses of the request proper are already there)
+        seq_before = not twin and role == "recv" and case["hardware"] == "generic" and tp_of(api) == "M" and draw(st.booleans())
+        if seq_before:
+            n1 = 2
         case["before"] = {
-            "api": api if twin else draw(st.sampled_from(["recv_measure", "create_measure", "recv_keep", "create_keep"])),
+            "api": "recv_keep" if seq_before else api if twin else draw(st.sampled_from(["recv_measure", "create_measure", "recv_keep", "create_keep"])),
+            "sequential": seq_before,  # (then every response is there before the program starts: "early" below)
             "kw": bkw if twin else {},
             "number": n1,
-            "flush": draw(st.booleans()),
+            "flush": draw(st.booleans()) and not seq_before,
             "responses": [{"create_id": 7000 + 13 * i, "sequence_number": 7001 + 13 * i, "goodness": 7002 + 13 * i, "goodness_time": 7003 + 13 * i,
                            "bell_state": draw(st.integers(0, 3)), "measurement_outcome": draw(st.integers(0, 1)), "measurement_basis": 0} for i in range(n1)],
         }
+    if case.get("before", {}).get("sequential"):
+        case["early"] = True
     return case
 
 
@@ -181,9 +193,14 @@ def check(case) -> Dict[str, Any]:
         b_role = "create" if before["api"].startswith("create") else "recv"
         b_tp = "K" if before["api"].endswith("keep") else "M"
         bkw2 = {k: (TimeUnit[v] if k == "time_unit" else v) for k, v in before.get("kw", {}).items()}
+        if before.get("sequential"):
+            seq_out = conn.new_array(before["number"])
+            bkw2.update(sequential=True, post_routine=lambda c, q, pair: q.measure(future=seq_out.get_future_index(pair)))
         before_result = getattr(sock, before["api"])(number=before["number"], **bkw2)
         stack.expect(b_role, b_tp, before["number"], [dict(r) for r in before["responses"]], remote_node_id=remote_id, purpose_id=purpose)
-        if b_tp == "K":
+        if before.get("sequential"):
+            pass  # the post routine consumes the pairs
+        elif b_tp == "K":
             for q in before_result:
                 q.measure()
         n_before = before["number"]
@@ -323,7 +340,7 @@ def check(case) -> Dict[str, Any]:
                                 goodness=r.goodness, bell_state=bs)
 
     delivered = [native_view(r) for r in stack.delivered[n_before:]]
-    if before:
+    if before and not before.get("sequential"):
         for i, r in enumerate(stack.delivered[:n_before]):
             h = before_result[i]
             if before["api"].endswith("keep"):
@@ -415,7 +432,7 @@ def shard(ctx: Ctx) -> None:
             stt.evaluations += 1
             return
         nt = case["number"] >= 2 or bool(case["kw"])
-        labels = [case["api"], f"pairs:{case['number']}", case["hardware"]] + [f"kw:{k}" for k in case["kw"]] + (["deprecated-alias"] if case.get("alias") else []) + (["after:" + case["before"]["api"]] if case.get("before") else []) + (["responses-before-the-receive-instruction"] if case.get("early") else []) + (["wire:" + case["wire"]] if case.get("wire") else []) + (["socket-served-another-connection-before"] if case.get("reused_socket") else [])
+        labels = [case["api"], f"pairs:{case['number']}", case["hardware"]] + [f"kw:{k}" for k in case["kw"]] + (["deprecated-alias"] if case.get("alias") else []) + (["after:" + case["before"]["api"] + (":sequential-with-waiting-pair" if case["before"].get("sequential") else "")] if case.get("before") else []) + (["responses-before-the-receive-instruction"] if case.get("early") else []) + (["wire:" + case["wire"]] if case.get("wire") else []) + (["socket-served-another-connection-before"] if case.get("reused_socket") else [])
         stt.case({k: v for k, v in case.items()}, nt, labels, sample={k: case[k] for k in ("role", "api", "number", "kw", "hardware")})
 
     ctx.search(st_case(), body, n, name="c11")
